@@ -1,8 +1,8 @@
 """Sidecar contracts on the real functions of manoss96/pregex, keyed by qualified name (pure data: importable both by
 the verifier and by the run-time / bounded checker).  Clauses are python expressions over the parameters, `result`,
 and the spec functions of contracts/spec_helpers.py and pvc/specsym.py (symbolic) / pvc/specrt.py (concrete)."""
-from . import pre_core, pre_quant, pre_ops, pre_match, pre_groups, wrappers, classes_iv, meta
+from . import pre_core, pre_quant, pre_ops, pre_match, pre_groups, wrappers, classes_iv, classes_ctor, meta
 
 ALL = {}
-for _m in (pre_core, pre_quant, pre_ops, pre_match, pre_groups, wrappers, classes_iv, meta):
+for _m in (pre_core, pre_quant, pre_ops, pre_match, pre_groups, wrappers, classes_iv, classes_ctor, meta):
     ALL.update(_m.C)
